@@ -453,7 +453,7 @@ def r4_strict_reader(chk, fx, name):
                      loc_of((lenient or [lp])[0].sp), holds=not lenient, key="C08/R4 %s skips-unrecognised-content" % lp.label(),
                      detail=None if not lenient else "an error reported in a form or position the reader does not know is taken for success")
         ca = [a for a in lp.arms if a.catch_all]
-        strict = bool(ca) and all("returnResult::Err(" in a.body_text() for a in ca)
+        strict = bool(ca) and all(lp.arm_fails(a) for a in ca)
         chk.instance("C08/R4", "%s: the catch-all arm fails the reply" % lp.label(), lp.fn, loc_of((ca or [lp])[0].sp), holds=strict,
                      key="C08/R4 %s catch-all-accepts" % lp.label())
 
